@@ -53,6 +53,7 @@ func c12Specs() []c12Spec {
 		{name: "named-smallcache", pat: `(?<word>[a-z]+) (?<n>\d+)`, opts: []regexp2.CompileOption{
 			regexp2.OptionMaxCachedReplacerDataEntries(4), regexp2.OptionMaxCachedReplacerDataBytes(8),
 			regexp2.OptionMaxCachedRuneBufferLength(4096), regexp2.OptionMaxCachedReplaceBufferLength(4096)}},
+		{name: "timeout-iter", pat: `(a+)+!$|\d+`, timeout: 8 * time.Millisecond},
 		{name: "nobitmap", pat: `[a-cx-z]+[\d_ ]`, opts: []regexp2.CompileOption{regexp2.OptionDisableCharClassASCIIBitmap()}},
 	}
 }
@@ -349,9 +350,15 @@ var c12PoolMu sync.Mutex
 func legC12Hist(c *Ctx) {
 	c12PoolMu.Lock()
 	defer c12PoolMu.Unlock()
-	c.Rule("histories of 8..40 (quick) / 8..400 (thorough) calls over 7 shared Regexps (balancing groups, bool-only-eligible captures, stack limit 65, catastrophic+8ms timeout, RightToLeft, named groups with a 4-entry cache and 4K buffer caps, classes without ASCII bitmaps); inputs of 0..60, ~1K, ~4K, ~16K and >16K bytes crossing the rune-buffer classes, some non-ASCII; 40 replacement strings; ops: MatchString, MatchRunes, FindStringMatch[StartingAt], FindRunesMatch, FindNextMatch, FindAllStringIndex, FindAllRunesIndex, Replace, ReplaceFunc, Split; pooled buffers are poisoned between steps; non-trivial = a step whose runner or buffer was recycled (distinct by history,step)")
+	c.Rule("histories of 8..40 (quick) / 8..400 (thorough) calls over 10 shared Regexps (balancing groups, bool-only-eligible captures, stack limits 65 and 129, three catastrophic patterns with an 8 ms timeout one of which also matches digit runs so that iterations continue under a deadline - a call reporting a timeout after less than half its budget is a violation whatever the load -, RightToLeft, named groups with a 4-entry cache and 4K buffer caps, classes without ASCII bitmaps); inputs of 0..60, ~1K, ~4K, ~16K and >16K bytes crossing the rune-buffer classes, some non-ASCII; 40 replacement strings; ops: MatchString, MatchRunes, FindStringMatch[StartingAt], FindRunesMatch, FindNextMatch, FindAllStringIndex, FindAllRunesIndex, Replace, ReplaceFunc, Split; pooled buffers are poisoned between steps; non-trivial = a step whose runner or buffer was recycled (distinct by history,step)")
 	regexp2.SetTimeoutCheckPeriod(time.Millisecond)
 	specs := c12Specs()
+	smallCache := 0
+	for i, sp := range specs {
+		if sp.name == "named-smallcache" {
+			smallCache = i
+		}
+	}
 	repls := c12Repls()
 	nh := c.N(600, 1500)
 	maxLen := c.N(40, 400)
@@ -475,7 +482,7 @@ func legC12Hist(c *Ctx) {
 			st.op = 1 + rng.Intn(11)
 			if replaceHeavy && rng.Chance(75) {
 				st.op = 8
-				st.re = Pick(rng, []int{5, 5, 1})
+				st.re = Pick(rng, []int{smallCache, smallCache, 1})
 			}
 			if specs[st.re].timeout != 0 && c12IsDeep(st.text) {
 				st.text = c12Calm(rng, texts)
@@ -513,7 +520,12 @@ func legC12Hist(c *Ctx) {
 			before := s.re.VerifPoolPeek()
 			current.Store(fmt.Sprintf("history #%d step %d %s", h, i, c12StepDesc(st, specs, repls)))
 			beat.Add(1)
+			t0 := time.Now()
 			out := c12Exec(s.re, st, repls, s.ngroups)
+			if el := time.Since(t0); s.spec.timeout != 0 && strings.HasPrefix(out.canon, "ERR match timeout") && el < s.spec.timeout/2 {
+				// whatever the load: a call that ran for less than half its budget cannot have used it up
+				fail(i, st, "reported a match timeout after %v although MatchTimeout is %v (a deadline left behind by an earlier call?)", el, s.spec.timeout)
+			}
 			if st.op == 8 {
 				if bi := regexp2.VerifBytePoolIndex(len(st.text), s.re.VerifPoolConfig().MaxCachedReplaceBufferLength); bi >= 0 {
 					if out.summary[0] == 8 || (out.summary[0] == 9 && out.summary[1] <= 2) || (out.summary[0] == 3 && len(out.canon) > byteSizes[bi]) {
@@ -638,7 +650,11 @@ func legC12Hist(c *Ctx) {
 			fresh := s.spec.compile()
 			current.Store(fmt.Sprintf("history #%d step %d (fresh Regexp) %s", h, i, c12StepDesc(st, specs, repls)))
 			beat.Add(1)
+			t0 := time.Now()
 			fo := c12Exec(fresh, st, repls, s.ngroups)
+			if el := time.Since(t0); s.spec.timeout != 0 && strings.HasPrefix(fo.canon, "ERR match timeout") && el < s.spec.timeout/2 {
+				fail(i, st, "on a freshly compiled Regexp the call reported a match timeout after %v although MatchTimeout is %v", el, s.spec.timeout)
+			}
 			if fo.canon != outs[i].canon && s.spec.timeout != 0 && !c12IsCatastrophic(st.text) &&
 				(strings.HasPrefix(fo.canon, "ERR match timeout") != strings.HasPrefix(outs[i].canon, "ERR match timeout")) {
 				// a wall-clock deadline fired on one side for an input that is not catastrophic (loaded machine):
